@@ -23,7 +23,8 @@ type Step struct {
 	// h2await: streams that must have ended
 	Streams []uint32
 	// h2await: wait until this many frames of any kind have been received in total
-	Note string
+	Note      string
+	WhenQuiet bool // the step is offered to the controller only while nothing is in flight on this connection
 }
 
 type ClientPlan struct {
@@ -92,9 +93,10 @@ type Client struct {
 	HandshakeBytes int // client->proxy bytes written when the handshake completed
 
 	// guarded by W.mu
-	atGate  bool
-	done    bool
-	stepIdx int
+	atGate   bool
+	done     bool
+	stepIdx  int
+	nextStep int
 
 	conn *Conn
 	tls  *utls.UConn
@@ -163,6 +165,9 @@ func (c *Client) run() {
 		c.W.mu.Unlock()
 	}()
 	for i := range c.Plan.Steps {
+		c.W.mu.Lock()
+		c.nextStep = i
+		c.W.mu.Unlock()
 		c.setGate(true)
 		select {
 		case <-c.gate:
@@ -344,6 +349,31 @@ func (c *Client) exec(s *Step) error {
 		return c.h1recv(s)
 	case "h2await":
 		return c.h2await(s)
+	case "h2ping":
+		// wait for the acknowledgement of the barrier PING (payload starts with 0xfc)
+		for {
+			c.W.mu.Lock()
+			got := false
+			for _, rf := range c.Recv {
+				if rf.F.Type == FPing && rf.F.Flags&FlagAck != 0 && len(rf.F.Payload) == 8 && rf.F.Payload[0] == 0xfc {
+					got = true
+				}
+			}
+			ended := c.ReadEnded
+			ch := c.notify
+			c.W.mu.Unlock()
+			if got {
+				return nil
+			}
+			if ended {
+				return fmt.Errorf("connection ended before the PING was acknowledged")
+			}
+			select {
+			case <-ch:
+			case <-c.quit:
+				return fmt.Errorf("aborted")
+			}
+		}
 	case "close":
 		if c.tls != nil {
 			return c.tls.Close()
